@@ -334,7 +334,7 @@ func init() {
 		Rule: "quick enumerates the grid kind(4) x (min,max)(12) x attached(2) x well-formed elements before the probe(0-3) x probe token class(15: element, number, float, key=value, word, known flag, unknown option, `-`, `--`, command name, int range, further occurrence attached/detached, hostile text, Bundling-mode bundle holding the option with flags and another argument-taking letter) x position(2) completely; " +
 			"thorough adds random runs of up to 3 occurrences with up to 9 following tokens. distinct = distinct argv shapes; non-trivial = the occurrence takes at least one detached token or stops before max. Definitions with min<1 or max<min must panic (sub-check).",
 		Assumptions: []string{"int ranges a..b with a>=b in accepted positions are generated but only the universal monitors apply (statement silent)"},
-		Cases:       func(tier string) int { return tierN(tier, c02Grid+6000, c02Grid+6000000) },
+		Cases:       func(tier string) int { return tierN(tier, c02Grid+40000, c02Grid+6000000) },
 		Run: func(seed uint64, idx int, tier string) *fw.Result {
 			c := c02Build(seed, idx, tier)
 			p := c02Prog(c.kind, c.min, c.max, c.mode, c.unknown, idx%2 == 0)
